@@ -401,3 +401,17 @@ for pid in ('C04', 'C05'):
         if tier in PROPS[pid]['mir']:
             PROPS[pid]['mir'][tier].append(mrun(['iter.clone_from'], nmax=3 if tier == 'quick' else 6))
 PROPS['C06']['mir']['quick'].append(mrun(['iter.clone_from'], nmax=3))
+
+# sixth round: shapes / lengths whose support by the compiler is part of the property, behind cargo features of the harness crate (a
+# rejection is attributed to the property by a differential native build: the harness crate builds without the feature and not with it)
+for tier in ('quick', 'thorough'):
+    r = PROPS['C11']['kani'][tier][0]
+    r['filters'] += ['c11::degenerate::q::'] + (['c11::degenerate::t::'] if tier == 'thorough' else [])
+    r['flags'] = list(r['flags']) + ['--features', 'c11']
+    r = PROPS['C19']['kani'][tier][0]
+    r['filters'] += ['c19_big::']
+    r['flags'] = list(r['flags']) + ['--features', 'c19']
+PROPS['C19']['bounds'] += ' Const items: the constant default of 2^18-, 2^19- and 2^20-element arrays is accepted by the const evaluator and has the right ends.'
+PROPS['C08']['bounds'] += ' K also: a 136-byte element type (above a cache line / any small-array threshold even for N = 1) through generate, boxed generate, Default, default_boxed, map (same layout), &-map, zip, fold, clone.'
+PROPS['C13']['bounds'] += ' K also: the sequence of element comparisons (eq / partial_cmp / cmp calls on logging elements) made by ==, !=, partial_cmp, cmp, <, >= equals the one the slice comparison makes (short-circuit included).'
+PROPS['C07']['bounds'] += ' The pull limit (N + 1 calls of next, none after None) is checked inside the scripted source, so it also covers the forms that end in a panic (from_iter / collect, stack and boxed).'
